@@ -6,7 +6,7 @@ import concurrent.futures as cf
 from lib import common as C
 from checks import hsim
 
-MODEL = {"mutex": "rwspec", "rw": "rwspec", "qrw": "rwspec", "sem": "semlog", "semd": "semlog", "semooo": "semlog", "semtight": "semlog", "condrace": "semlog", "cond": "ringlog"}
+MODEL = {"mutex": "rwspec", "rw": "rwspec", "qrw": "rwspec", "sem": "semlog", "semd": "semlog", "semooo": "semlog", "semtight": "semlog", "condrace": "semlog", "intrrace": "intrlog", "cond": "ringlog"}
 
 
 def gen(r, what, big):
@@ -28,6 +28,8 @@ def gen(r, what, big):
                                              r.choice([200, 600] if not big else [600, 3000]) * (4 if tmo else 1), r.choice([0, 1, 1] if tmo else [0, 0, 1]), tmo)]
     if what == "semd":
         return ["semd %d %d %d %d" % (nv, r.choice([1, 2, 4]), r.choice([300, 1000] if not big else [1000, 5000]), r.choice([0, 1]))]
+    if what == "intrrace":
+        return ["intrrace %d %d %d" % (r.choice([3000, 6000] if not big else [15000, 30000]), r.choice([10, 50, 300]), r.choice([0, 1]))]
     if what == "cond" and r.random() < 0.5:
         return ["condrace %d %d" % (r.choice([20000, 40000] if not big else [100000, 300000]), r.choice([5, 30, 100]))]
     return ["cond %d %d %d %d %d" % (nv, r.choice([1, 2, 3]), r.choice([1, 2, 3]), r.choice([500, 2000] if not big else [2000, 10000]), r.choice([1, 1, 2, 8]))]
@@ -88,6 +90,8 @@ def run(rep, prop, kinds, tier, seed, replay_prog=None):
                     viol.append("a writer was inside the critical section together with another holder (%s)" % l)
                 elif t[0] == "counter" and t[1] != t[2]:
                     viol.append("an unprotected counter incremented only inside write-locked sections is %s after %s sections (lost update: exclusion failed)" % (t[1], t[2]))
+                elif t[0] in ("stale", "wrong-result"):
+                    viol.append("a sleep that nobody interrupted was cut short / returned a wrong result across vCPUs (%s)" % l)
                 elif t[0] == "late-write":
                     viol.append("a semaphore was written to after wait() had returned and the waiter had destroyed it (%s)" % l)
             if res.reject:
@@ -115,7 +119,8 @@ def run(rep, prop, kinds, tier, seed, replay_prog=None):
                           "between two vCPUs with the unlock placed 0..3 us after the other side started to lock, optionally with a thread_interrupt of the locker "
                           "from a plain OS thread at the same moment; semaphores signalled "
                           "from photon threads and plain OS threads, waiters of 1..3 tokens, in-order and out-of-order resume, optionally with short timeouts and "
-                          "interrupts of the waiters; semaphores destroyed and "
+                          "interrupts of the waiters; thread_interrupt from another vCPU or OS thread aimed at the moment a sleep times out, followed by an "
+                          "undisturbed sleep that must last its full time; semaphores destroyed and "
                           "overwritten as soon as wait() returns; a bounded buffer with a mutex and two condition variables; stamped logs validated by the "
                           "Lean acceptors rwspec / semlog / ringlog; a run without progress for 3 s is a stuck waiter")
     for kid, (k, p, v) in seen.items():
